@@ -1441,6 +1441,14 @@ impl Evaluator {
         }
         let next_context_data = next_context_data.unwrap();
         let next_parms = next_context_data.parms();
+        if scheme == SchemeType::CKKS {
+            // The rescaled scale has to fit the next level, exactly as mod_switch_to_next
+            // demands of the unchanged scale.
+            let next_scale = encrypted.scale() / parms.coeff_modulus().last().unwrap().value() as f64;
+            if !Self::is_scale_within_bounds(next_scale, &next_context_data) {
+                panic!("[Invalid argument] Scale is out of bounds");
+            }
+        }
         let rns_tool = context_data.rns_tool();
 
         let encrypted_size = encrypted.size();
